@@ -87,6 +87,18 @@ Theorem c12_aggregation_stale_refuted :
 Proof. exact aggregation_stale_refuted. Qed.
 Print Assumptions c12_aggregation_stale_refuted.
 
+(* ... and they ARE preserved by the proposed repair (same_disj compares group shapes, no skipped deletion):
+   Inv st0 = well-formed input: request ids are non-empty and share no atom, groups only name existing requests,
+   each at most once (Proofs/Disjoint.v, Record Inv) *)
+Theorem c12_aggregate_fixed_preserves :
+  forall rqs gs,
+  Inv (mkS (map a_id rqs) (seq 0 (length rqs)) gs) ->
+  let st := aggregate_fixed rqs gs in
+  (forall a b, Covered gs a b -> Covered (s_groups st) a b) /\
+  no_stale (final_ids st) (s_groups st) = true.
+Proof. exact aggregate_fixed_preserves. Qed.
+Print Assumptions c12_aggregate_fixed_preserves.
+
 (* K1: the include test of step 4 is made on the short list, where a line element that is not right after a ROADM
    never appears, although the path itself crosses it *)
 Theorem c12_shortlist_ispart_refuted :
@@ -117,4 +129,12 @@ Example c12_ex_aggregate :
   let st := aggregate [mkA [0] 1 true; mkA [1] 1 true; mkA [2] 5 true] [mkG 0 [[0]; [2]]; mkG 1 [[1]; [2]]] in
   final_ids st = [[1; 0]; [2]] /\ s_groups st = [mkG 0 [[2]; [1; 0]]] /\
   covered_ok [[0; 2]; [1; 2]] (s_groups st) = true.
+Proof. vm_compute. repeat split. Qed.
+Example c12_ex_fixed_wf : Inv (mkS (map a_id k2_rqs) (seq 0 (length k2_rqs)) k2_groups).
+Proof. exact k2_inv. Qed.
+Example c12_ex_fixed_keeps :
+  covered_ok k2_declared (s_groups (aggregate_fixed k2_rqs k2_groups)) = true /\
+  no_stale (final_ids (aggregate_fixed k3_rqs k3_groups)) (s_groups (aggregate_fixed k3_rqs k3_groups)) = true /\
+  (let st := aggregate_fixed [mkA [0] 1 true; mkA [1] 1 true; mkA [2] 5 true] [mkG 0 [[0]; [2]]; mkG 1 [[1]; [2]]] in
+   final_ids st = [[1; 0]; [2]] /\ s_groups st = [mkG 0 [[2]; [1; 0]]]).
 Proof. vm_compute. repeat split. Qed.
